@@ -10,4 +10,4 @@ META = dict(
 
 
 def run(chk):
-    shapework.run(chk, 'C03', 1600, 60000, synth=True, synth_kinds=('hostile', 'c06'))
+    shapework.run(chk, 'C03', 1600, 150000, synth=True, synth_kinds=('hostile', 'c06'))
